@@ -132,6 +132,8 @@ type Query struct {
 	// Union, when set, is appended as UNION [ALL] <Union>; ORDER BY/LIMIT are then not generated.
 	Union    *Query
 	UnionAll bool
+	// Shape names the generator that produced the query (for labels only).
+	Shape string
 }
 
 // Refs lists the table references of the query itself (not of subqueries).
